@@ -5,8 +5,10 @@ Flow of ``./check C19``:
  2. translator validation ("correspondence"): the tables are streamed to the Lean model through
     ``psidriver scope``; the Lean ``resolve`` classification of every (scope, name) — and the Python
     mirror used to compute the excused list — is compared with CPython's ``symtable`` for the repo
-    modules, a corpus of scoping corner cases and a sample of the standard library;
-    a disagreement is an infrastructure failure (exit 2);
+    modules, a corpus of scoping corner cases (hand-written expected verdicts, every binding form with a resolving
+    and a non-resolving variant) and a sample of the standard library; a synthetic package exercising every import
+    spelling / attribute chain / star-import / dynamic name is decided by the model and compared with hand-written
+    verdicts AND with what a pristine interpreter does; a disagreement is an infrastructure failure (exit 2);
  3. ``lake build PsiProofs.C19`` (kernel-evaluates ``checkEx package excused``) + axiom audit;
  4. every failing load/chain reported by the Lean ``failures`` is either a recorded known finding
     (KNOWN-FINDING, keyed by (module, function, name)) or is probed on the real module
@@ -205,6 +207,10 @@ class Disagreement(Exception):
     pass
 
 
+# implicit symbols of PEP 695 annotation scopes / generic classes
+PEP695_IMPLICIT = {'.defaults', '.kwdefaults', '.type_params', '.generic_base', '__classdict__'}
+
+
 def _class3(r):
     if r == 'local':
         return 'L'
@@ -233,8 +239,10 @@ def symtable_compare(sm, mi, data, cls):
 
     def match(si, t):
         s = w2.scopes[si]
-        ttype = str(t.get_type()).split('.')[-1].lower()
-        want = {'module': 'module', 'class': 'class'}.get(s.kind, 'function')
+        ttype = str(t.get_type()).split('.')[-1].lower().replace('_', ' ')
+        ttype = {'type parameters': 'type parameter', 'type variable': 'typevar bound'}.get(ttype, ttype)
+        want = {'module': 'module', 'class': 'class', 'typeparams': 'type parameter',
+                'typevarbound': 'typevar bound', 'typealias': 'type alias'}.get(s.kind, 'function')
         tname = t.get_name()
         sname = {'module': 'top', 'comprehension': 'genexpr'}.get(s.kind, s.name)
         if ttype != want or tname != sname:
@@ -262,19 +270,20 @@ def symtable_compare(sm, mi, data, cls):
         mine = set(s.bound_names())
         theirs = {n for n, x in syms.items() if x.is_local()}
         if s.kind == 'module':
-            extra = set(T.MODULE_IMPLICIT) | {'__path__'} | sm.global_assigned
+            extra = set(T.MODULE_IMPLICIT) | {'__path__'} | sm.global_assigned | sm.star_bound | sm.dynamic_bound
         elif s.kind == 'class':
-            extra = set(T.CLASS_IMPLICIT)
-            theirs -= {'__class__', '__classdict__'}
+            extra = set(T.CLASS_IMPLICIT) | {'__type_params__'}
+            theirs -= {'__class__', '__classdict__', '.type_params'}
         else:
             extra = set()
+            theirs -= PEP695_IMPLICIT
         if not (theirs <= mine and mine - theirs <= extra):
             raise Disagreement(f'{where}: bound names differ: translator-only {sorted(mine - theirs - extra)}, '
                                f'symtable-only {sorted(theirs - mine)}')
         # (b) referenced names
         mine_ref = {n for n, _, _ in s.loads}
         their_ref = {n for n, x in syms.items() if x.is_referenced()}
-        diff = mine_ref ^ their_ref
+        diff = (mine_ref ^ their_ref) - PEP695_IMPLICIT
         if 'super' in mine_ref or s.kind == 'class':
             diff -= {'__class__', '__classdict__'} - mine_ref     # implicit (zero-argument super / class cell)
         if diff:
@@ -290,7 +299,14 @@ def symtable_compare(sm, mi, data, cls):
         for nid, _line in dm['scopes'][si]['loads']:
             n = names[nid]
             r = cls[(mi, si, nid)]
-            x = syms[n]
+            x = syms.get(n)
+            if x is None and n in dm['scopes'][si].get('moved_in', ()):
+                # read by a PEP 695 annotation scope inside this class body and not bound by the class: resolved as if
+                # the class body read it; symtable files it under the annotation scope
+                x = {y.get_name(): y for y in tables[dm['scopes'][si]['moved_in'][n]].get_symbols()}[n]
+            if s.kind == 'class' and n in T.CLASS_IMPLICIT and r == 'local' and not x.is_local():
+                compared += 1      # `__module__`/`__qualname__` read in a class body: set by the class-creation
+                continue           # protocol before the body runs; symtable sees no binding and says "global"
             # (is_local before is_global: symtable.py reports every bound symbol of a function that
             # happens to be called `top` as global too)
             if s.kind == 'module' or x.is_declared_global():
@@ -316,8 +332,12 @@ def symtable_compare(sm, mi, data, cls):
             if want == 'G':
                 g = modsyms.get(n)
                 defined = (g is not None and g.is_local()) or n in sm.global_assigned \
-                    or n in T.MODULE_IMPLICIT or (sm.is_pkg and n == '__path__')
-                expect = 'global' if defined else ('builtin' if hasattr(builtins, n) else 'none')
+                    or n in T.MODULE_IMPLICIT or (sm.is_pkg and n == '__path__') \
+                    or n in sm.star_bound or n in sm.dynamic_bound
+                # translator refinement of symtable's flow-insensitive answer: a module-level name whose last
+                # top-level statement is `del name`, or which is only ever bound by `except … as name`
+                defined = defined and n not in sm.module_unbound
+                expect = 'global' if defined else ('builtin' if n in vars(builtins) else 'none')
                 if sm.has_star and not w2.resolve_star and expect != 'global':
                     pass       # `from x import *` not expanded in corpus mode: definedness not comparable
                 elif r != expect:
@@ -477,7 +497,317 @@ async def g(*args, **kwargs):
     r = [await z async for z in agen()]
     return
 ''',
+    # ---- hardening pass: binding forms / scoping corners the corpus lacked (resolving + non-resolving variants) ----
+    'rare_branches': '''
+known = 1
+def f(x):
+    try:
+        known
+    except ValueErr as e:
+        return hnd1, known
+    except (KeyError, TupleErr):
+        return known
+    else:
+        return els1, known
+    finally:
+        fin1, known
+    for i in x:
+        pass
+    else:
+        forelse1, known
+    while x:
+        pass
+    else:
+        whileelse1, known
+    if x:
+        if x:
+            if x:
+                if x:
+                    deep1, known
+    elif elif1:
+        pass
+    assert x, assertmsg1
+    raise known from cause1
+    return (yes1 if x else no1), (x and short1), (x or short2), known
+''',
+    'match_forms': '''
+import enum
+class Color(enum.Enum):
+    RED = 1
+def f(x, Point):
+    match x:
+        case Color.RED:
+            return a1
+        case Point(x=px, y=py):
+            return px, py
+        case Missing(q):
+            return q
+        case [1, 2, *_]:
+            return b1
+        case {"a": 1, **rest}:
+            return c1, rest
+        case 1 | 2:
+            return d1
+        case cap if cap > guard1:
+            return cap
+        case _:
+            return e1
+''',
+    'decorators': '''
+import functools
+def deco(*a, **k):
+    return lambda f: f
+known = 1
+@deco(arg1, key=arg2)
+@missing_deco
+@functools.lru_cache(maxsize=None)
+@deco(known, key=known)
+def f(): pass
+class C:
+    @property
+    def p(self): return 1
+    @p.setter
+    def p(self, v): pass
+    @staticmethod
+    @other_missing
+    def s(): pass
+@deco(cls_arg)
+class D: pass
+''',
+    'defaults_annotations': '''
+import typing
+K = 1
+def f(a=K, b=missing_default, *, c=K, d=missing_kwdefault, e: ann_missing1 = 2, g: typing.Any = 3) -> ret_missing: pass
+def g(a=lambda: lam_missing, b=[q for q in iter_missing], c=lambda: K): pass
+class C:
+    k = 2
+    hid = 3
+    def m(self, a=k, b: k = 3): pass
+    def n(self, a=lambda: hid): pass
+''',
+    'future_annotations': '''
+from __future__ import annotations
+def f(a: NotThere, b: 'Str' = default_missing) -> AlsoNot:
+    x: Nope = 1
+    return x
+class C:
+    v: NotThereEither = 1
+v: ModuleLevelNot = 2
+''',
+    'class_bodies': '''
+class A:
+    in_cls = 1
+    first_iter = [i for i in range(in_cls)]
+    hid_elt = 1
+    y = [hid_elt for _ in range(3)]
+    hid_inner = 1
+    w = [[hid_inner for _ in range(2)] for j in range(in_cls)]
+    hid_meth = 1
+    def m(self):
+        return hid_meth
+    def n(self):
+        return __class__, super().n()
+    hid_lam = 1
+    lam = lambda self: hid_lam
+    hid_nested = 1
+    class B:
+        q = hid_nested
+    r = in_cls
+class E(Base_missing, metaclass=Meta_missing, kw=kw_missing): pass
+''',
+    'comprehension_parts': '''
+def f(data):
+    a = [u for u in first_iter_missing]
+    b = [u for u in data for v in second_iter_missing]
+    c = [u for u in data if cond_missing]
+    d = {k: v for k, v in data}
+    e = (elt_missing for _ in data)
+    g = [w := u for u in data]
+    return w, leak_u
+def h():
+    return [y for y in range(3)], leak_y
+''',
+    'lambda_closures': '''
+def outer(p):
+    q = 1
+    def inner():
+        def innermost():
+            return p, q, r_missing, late
+        return innermost
+    late = 2
+    return inner, (lambda z=q: z + p + lam_missing)
+''',
+    'global_written_elsewhere': '''
+def setter():
+    global made_here
+    made_here = 1
+def reader():
+    return made_here, never_made
+def declared_only():
+    global only_declared
+    return only_declared
+def outer():
+    v = 1
+    def inner():
+        nonlocal v
+        v = 2
+    return inner
+''',
+    'binding_forms': '''
+import os
+def f(p, seq):
+    with open(p) as fh, open(p) as (a, [b, c]):
+        pass
+    for i, (j, *k) in seq: pass
+    first, *rest = seq
+    (x, y), z = seq
+    acc += 1
+    obj_missing.attr = 1
+    sub_missing[idx_missing] = 1
+    try: pass
+    except E_missing as e: pass
+    import os.path as osp, sys
+    from os import path as pth, sep
+    def local_fn(): pass
+    class LocalCls: pass
+    return fh, a, b, c, i, j, k, first, rest, x, y, z, acc, e, osp, sys, pth, sep, local_fn, LocalCls
+''',
+    'module_del': '''
+import os
+tmp = [1, 2]
+table = {k: tmp for k in tmp}
+class K:
+    v = tmp
+    w = [tmp for _ in range(2)]
+for _i in range(3):
+    pass
+del tmp, _i
+cond = 1
+if os.sep:
+    del cond
+again = 1
+del again
+again = 2
+a, b = 1, 2
+del (a, b)
+def f():
+    return tmp, _i, cond, again, a, b
+def g():
+    global revived
+    revived = 1
+revived = 0
+del revived
+def h():
+    return revived
+''',
+    'module_except_name': '''
+try:
+    import json
+except ImportError as err1:
+    json = None
+err2 = None
+try:
+    pass
+except OSError as err2:
+    pass
+def f():
+    try:
+        pass
+    except OSError as err3:
+        pass
+    return err1, err2, err3, json
+''',
+    'conditional_imports': '''
+import sys
+if sys.version_info > (3,):
+    import json
+else:
+    json = None
+try:
+    import yaml
+except ImportError:
+    yaml = None
+def f():
+    import collections
+    return json, yaml, collections.OrderedDict
+def g():
+    return collections
+''',
+    'builtins_level': '''
+def f():
+    return (__builtins__, __name__, __file__, __doc__, __spec__, __debug__, __import__, __build_class__, Ellipsis,
+            NotImplemented, __dict__, __module__, __qualname__)
+class C:
+    a = __module__, __qualname__
+    def m(self): return __module__
+''',
+    'dynamic_names': '''
+globals()['dyn1'] = 1
+exec('dyn2 = 2')
+def f():
+    return dyn1, dyn2
+''',
+    'name_mangling': '''
+_A__mod = 1
+class A:
+    __priv = 1
+    def m(self):
+        return __priv, __mod, __dunder__, self.__x
+''',
+    'expression_positions': '''
+def f(a, g):
+    yield f"{a!r:>{width_missing}} {fmt_missing:.2f}"
+    yield g(*star_missing, **dstar_missing, kw=kwval_missing)
+    yield a[sl_missing:1], {k_missing: 1}, {*set_missing}, -neg_missing, not not_missing
+    yield (yield y_missing)
+    yield a < cmp_missing < a, a if a else a, await_missing.x
+''',
 }
+
+
+if sys.version_info >= (3, 12):
+    # PEP 695: type-parameter scopes (evaluated: annotations of a generic def, bases of a generic class — they see the
+    # class namespace when directly in a class body); TypeVar bounds and type-alias values are evaluated lazily
+    CORNER_CASES['pep695'] = '''
+G = int
+def deco(f): return f
+@deco
+def f[T: (int, BoundLazy), *Ts, **P](x: T, y: G = G, z: ann_missing = default_missing) -> list[T]:
+    def inner(): return T, x, Ts, P
+    return inner
+class C[U](Base_missing[U], kw=G):
+    clsname = int
+    def m[V](self, a: clsname, b: V, c: meth_ann_missing) -> U:
+        return V, U, clsname_not_visible
+    type Alias[W] = dict[W, clsname, LazyMissing]
+    class Inner[X](clsname): pass
+type A2 = NotDefinedLazy | G
+type A3[Z: BoundZLazy] = list[Z]
+def user():
+    return A2, A3, C, f, Zleak
+'''
+
+
+
+def _scale_case(depth=40, width=400):
+    """Scale: a closure chain `depth` functions deep (innermost reads the outermost local, a module global, and one
+    undefined name) and `width` sibling functions/classes; boundary: empty-bodied defs, a name bound after its use."""
+    lines = ['late_global_reader = lambda: bound_later', 'def level0(v0):']
+    for d in range(1, depth):
+        lines.append('    ' * d + f'def level{d}(v{d}):')
+    lines.append('    ' * depth + f'return v0, v{depth - 1}, bound_later, deep_missing')
+    for d in range(depth - 1, 0, -1):
+        lines.append('    ' * d + f'return level{d}')
+    for k in range(width):
+        lines += [f'def wide{k}(a{k}=None): return a{k}, wide{(k + 1) % width}, bound_later',
+                  f'class Wide{k}:', f'    attr{k} = wide{k}', f'    def m(self): return attr{k}' if k == 7 else '    pass']
+    lines.append('bound_later = 1')
+    return '\n'.join(lines) + '\n'
+
+
+CORNER_CASES['scale_deep_and_wide'] = _scale_case()
+CORNER_CASES['empty_module'] = ''
+CORNER_CASES['docstring_only'] = '"""Nothing but a docstring."""\n'
 
 
 def corner_sources():
@@ -551,7 +881,36 @@ CORNER_EXPECT = {
     'annotations': set(),
     'lambda_in_class_and_genexpr_first_iter': {'xs'},
     'async_and_star_args': {'lock', 'aiter_', 'agen'},
+    # hardening pass (every expectation below was confirmed by executing the snippet)
+    'rare_branches': {'TupleErr', 'ValueErr', 'assertmsg1', 'cause1', 'deep1', 'elif1', 'els1', 'fin1', 'forelse1',
+        'hnd1', 'no1', 'short1', 'short2', 'whileelse1', 'yes1'},
+    'match_forms': {'Missing', 'a1', 'b1', 'c1', 'd1', 'e1', 'guard1'},
+    'decorators': {'arg1', 'arg2', 'cls_arg', 'missing_deco', 'other_missing'},
+    'defaults_annotations': {'ann_missing1', 'hid', 'iter_missing', 'lam_missing', 'missing_default',
+        'missing_kwdefault', 'ret_missing'},
+    'future_annotations': {'default_missing'},
+    'class_bodies': {'Base_missing', 'Meta_missing', 'hid_elt', 'hid_inner', 'hid_lam', 'hid_meth', 'hid_nested',
+        'kw_missing'},
+    'comprehension_parts': {'cond_missing', 'elt_missing', 'first_iter_missing', 'leak_u', 'leak_y',
+        'second_iter_missing'},
+    'lambda_closures': {'lam_missing', 'r_missing'},
+    'global_written_elsewhere': {'never_made', 'only_declared'},
+    'binding_forms': {'E_missing', 'idx_missing', 'obj_missing', 'sub_missing'},
+    'module_del': {'_i', 'a', 'b', 'tmp'},
+    'module_except_name': {'err1'},
+    'conditional_imports': {'collections'},
+    'builtins_level': {'__dict__', '__module__', '__qualname__'},
+    'dynamic_names': {'dyn2'},
+    'name_mangling': {'_A__priv', '__dunder__'},
+    'expression_positions': {'await_missing', 'cmp_missing', 'dstar_missing', 'fmt_missing', 'k_missing',
+        'kwval_missing', 'neg_missing', 'not_missing', 'set_missing', 'sl_missing', 'star_missing', 'width_missing',
+        'y_missing'},
 }
+
+CORNER_EXPECT.update({'scale_deep_and_wide': {'deep_missing', 'attr7'}, 'empty_module': set(), 'docstring_only': set()})
+if 'pep695' in CORNER_CASES:
+    CORNER_EXPECT['pep695'] = {'ann_missing', 'default_missing', 'Base_missing', 'meth_ann_missing',
+                               'clsname_not_visible', 'Zleak'}
 
 
 def corner_check():
@@ -583,6 +942,273 @@ def corner_check():
 
 
 # --------------------------------------------------------------------------
+# synthetic package: attribute chains, imports of every spelling, star-imports, dynamic names — the Lean verdict is
+# compared with hand-written expectations (function-name prefix) AND with what a pristine interpreter does
+# --------------------------------------------------------------------------
+# Conventions: every `ok_*` / `bad_*` function is straight-line and takes no argument; `ok_` = inside the claim and
+# resolving (must not be reported, must run), `bad_` = inside the claim and failing (must be reported, raises
+# NameError/AttributeError when called in a pristine interpreter that imported only its module), `out_` = outside the
+# claim (must not be reported; what it does at run time is not compared).  Modules `bad_import_*` must be reported with a
+# failing import and must fail to import; all other modules must import.
+SYNTH_FILES = {
+    'c19synth/__init__.py': '''
+from . import alpha
+from .alpha import helper as pkg_helper
+X = 1
+''',
+    'c19synth/alpha.py': '''
+helper = 1
+_private = 2
+def fn(): pass
+''',
+    'c19synth/beta.py': 'value = 1\n',
+    'c19synth/gamma.py': 'value = 3\n',
+    'c19synth/delta.py': 'value = 4\n',                 # a file nobody imports
+    'c19synth/sub/__init__.py': 'from . import leaf\n',
+    'c19synth/sub/leaf.py': 'thing = 1\n',
+    'c19synth/sub/other.py': 'thing = 2\n',
+    'c19synth/lazy.py': '''
+real = 1
+def __getattr__(name):
+    if name == 'virtual':
+        return 42
+    raise AttributeError(name)
+''',
+    'c19synth/withall.py': "__all__ = ['pub', '_listed']\npub = 1\n_listed = 2\nhidden = 3\n",
+    'c19synth/noall.py': 'pub2 = 1\n_under = 2\nimport os as os_from_noall\n',
+    'c19synth/badall.py': "__all__ = ['exists', 'does_not_exist']\nexists = 1\n",
+    'c19synth/deleted.py': 'gone = 1\ndel gone\nkept = 2\n',
+    'c19synth/use_attr.py': '''
+import c19synth
+import c19synth.sub.other
+import c19synth.beta as bt
+from c19synth import gamma
+from c19synth import lazy, deleted
+from . import alpha as al
+from .sub import leaf as lf
+import os.path
+import xml.dom.minidom as minidom
+import wsgiref
+import json
+import scipy
+import numpy as np
+from importlib import resources
+try:
+    import decimal
+except ImportError:
+    decimal = None
+if os.sep:
+    import fractions
+def ok_pkg_alpha(): return c19synth.alpha.helper, c19synth.X, c19synth.pkg_helper
+def bad_pkg_alpha_attr(): return c19synth.alpha.nope
+def bad_pkg_attr(): return c19synth.Y
+def ok_pkg_beta(): return c19synth.beta.value
+def ok_pkg_sub_other(): return c19synth.sub.other.thing
+def ok_pkg_sub_leaf(): return c19synth.sub.leaf.thing
+def bad_pkg_delta(): return c19synth.delta.value
+def ok_alias(): return bt.value
+def bad_alias(): return bt.valu
+def ok_from_sub(): return gamma.value
+def bad_from_sub(): return gamma.nope
+def ok_lazy_real(): return lazy.real
+def ok_lazy_virtual(): return lazy.virtual
+def bad_lazy(): return lazy.nothing
+def ok_deleted_kept(): return deleted.kept
+def bad_deleted_gone(): return deleted.gone
+def ok_rel(): return al.helper, lf.thing
+def bad_rel(): return lf.nope
+def ok_os_path(): return os.path.join, os.sep
+def bad_os_path(): return os.path.joinn
+def ok_minidom(): return minidom.parse
+def bad_minidom(): return minidom.parze
+def ok_scipy_lazy(): return scipy.constants.pi
+def bad_scipy_lazy(): return scipy.constants.pii
+def bad_scipy_top(): return scipy.constantz
+def ok_np(): return np.linalg.norm, np.random.default_rng, np.pi
+def bad_np(): return np.linalg.normm
+def bad_unloaded_submodule(): return wsgiref.util.FileWrapper
+def bad_json_tool(): return json.tool.main
+def ok_from_submodule(): return resources.files
+def bad_from_submodule(): return resources.filez
+def ok_fallback(): return decimal.Decimal
+def bad_fallback(): return decimal.Decimall
+def ok_conditional(): return fractions.Fraction
+def bad_conditional(): return fractions.Fractionn
+def ok_local_import():
+    import collections.abc
+    return collections.abc.Mapping, collections.OrderedDict
+def bad_local_import():
+    import collections
+    return collections.OrderedDictt
+def ok_local_submodule_import():
+    import wsgiref.headers
+    return wsgiref.headers.Headers
+def ok_closure_import():
+    import string
+    return (lambda: [string.digits for _ in range(1)])()
+def bad_closure_import():
+    import string
+    return (lambda: [string.digitz for _ in range(1)])()
+def out_param_shadow(np=None): return np.anything
+def out_instance_attr(): return al.helper.no_such_instance_attribute
+def out_rebound():
+    lf = object()
+    return lf.whatever
+''',
+    'c19synth/use_loaded_elsewhere.py': '''
+import wsgiref
+import wsgiref.util
+import c19synth
+from . import delta
+def ok_loaded_submodule(): return wsgiref.util.FileWrapper
+def ok_pkg_delta(): return c19synth.delta.value
+''',
+    'c19synth/use_star.py': '''
+from .withall import *
+from .noall import *
+def ok_star_all(): return pub, _listed
+def bad_star_not_listed(): return hidden
+def ok_star_noall(): return pub2, os_from_noall.sep
+def bad_star_module_attr(): return os_from_noall.sepp
+def bad_star_underscore(): return _under
+''',
+    'c19synth/use_names.py': '''
+from .deleted import kept
+helper = 1
+scratch = 2
+del scratch
+try:
+    pass
+except Exception as exc:
+    pass
+globals()['injected'] = 1
+exec('via_exec = 2')
+def _setter():
+    global made_later
+    made_later = 1
+class K:
+    attr = helper
+    def ok_method(self=None): return helper
+    def bad_method(self=None): return attr
+ok_method, bad_method = K.ok_method, K.bad_method
+def ok_helper(): return helper, kept, __name__, len
+def bad_scratch(): return scratch
+def bad_exc(): return exc
+def ok_injected(): return injected
+def ok_via_exec(): return via_exec
+def bad_typo(): return helpr
+def bad_builtin_typo(): return lenn
+def out_made_later(): return made_later
+def out_unbound_local(flag=False):
+    if flag:
+        v = 1
+    return v
+''',
+    'c19synth/use_optional.py': '''
+try:
+    import surely_not_installed_c19 as opt
+except ImportError:
+    opt = None
+def out_optional(): return opt.anything
+def out_optional_local():
+    from surely_not_installed_c19 import thing
+    return thing
+def ok_guarded(): return None if opt is None else opt.x
+''',
+    'c19synth/bad_import_star_all.py': 'from .badall import *\n',
+    'c19synth/bad_import_missing_module.py': 'from .nonexistent import thing\n',
+    'c19synth/bad_import_missing_name.py': 'from .alpha import not_there\n',
+    'c19synth/bad_import_dotted.py': 'import c19synth.nonexistent2\n',
+    'c19synth/bad_import_private_star.py': 'from .noall import _under\nfrom .withall import nothing_like_it\n',
+}
+
+
+def synthetic_check():
+    """Translator + Lean on the synthetic package, against the prefix expectations and a pristine interpreter."""
+    import shutil
+    import subprocess
+    import tempfile
+    from concurrent.futures import ThreadPoolExecutor
+    tmp = tempfile.mkdtemp(prefix='c19synth-')
+    saved = dict(sys.modules)
+    sys.path.insert(0, tmp)
+    try:
+        mods = []
+        for rel, src in sorted(SYNTH_FILES.items()):
+            p = os.path.join(tmp, rel)
+            os.makedirs(os.path.dirname(p), exist_ok=True)
+            open(p, 'w').write(src)
+            is_pkg = rel.endswith('/__init__.py')
+            name = (os.path.dirname(rel) if is_pkg else rel[:-3]).replace('/', '.')
+            mods.append((name, p, is_pkg))
+        importlib.invalidate_caches()
+        pkg = T.load_package(sources=[T.SourceModule(n, p, k) for n, p, k in mods], sys_path=[tmp])
+        data = pkg.build()
+        st = validate(None, 'synthetic-package', pkg=pkg, data=data)
+        static = {}        # module -> set of functions (owner qualname / '<import>') the Lean check reports
+        for fd in describe_failures(pkg, data, st['fails']):
+            static.setdefault(fd['module'], set()).add(fd['function'])
+
+        def fresh(name):
+            code = ('import importlib, json, sys\n'
+                    'try:\n'
+                    f'    m = importlib.import_module({name!r})\n'
+                    'except Exception as e:\n'
+                    '    print(json.dumps({"<import>": type(e).__name__})); sys.exit(0)\n'
+                    'out = {}\n'
+                    'for n, f in sorted(vars(m).items()):\n'
+                    '    if n.startswith(("ok_", "bad_")) and callable(f):\n'
+                    '        try:\n'
+                    '            f(); out[n] = None\n'
+                    '        except (NameError, AttributeError) as e:\n'
+                    '            out[n] = type(e).__name__\n'
+                    'print(json.dumps(out))\n')
+            r = subprocess.run([sys.executable, '-c', code], capture_output=True, text=True, cwd=tmp,
+                               env=dict(os.environ, PYTHONPATH=tmp), timeout=300)
+            if r.returncode != 0:
+                raise Disagreement(f'synthetic package: pristine interpreter failed on {name}: {r.stderr[-300:]}')
+            return json.loads(r.stdout.strip().splitlines()[-1])
+
+        users = [n for n, _, _ in mods if n.split('.')[-1].startswith(('use_', 'bad_import_'))]
+        with ThreadPoolExecutor(max_workers=8) as ex:
+            dynamic = dict(zip(users, ex.map(fresh, users)))
+        checked = 0
+        for name in users:
+            got, dyn = static.get(name, set()), dynamic[name]
+            sm = pkg.by_name[name]
+            if name.split('.')[-1].startswith('bad_import_'):
+                if '<import>' not in got or '<import>' not in dyn:
+                    raise Disagreement(f'synthetic {name}: import must fail; model reports {sorted(got)}, '
+                                       f'pristine interpreter {dyn}')
+                checked += 1
+                continue
+            if '<import>' in got or '<import>' in dyn:
+                raise Disagreement(f'synthetic {name}: import must work; model reports {sorted(got)}, '
+                                   f'pristine interpreter {dyn}')
+            fns = {s.qualname.split('.')[-1] for s in sm.scopes if s.kind == 'function'}
+            got_fns = {g.split('.')[-1] for g in got}
+            for fn in sorted(f for f in fns if f.startswith(('ok_', 'bad_', 'out_'))):
+                want_bad = fn.startswith('bad_')
+                if (fn in got_fns) != want_bad:
+                    raise Disagreement(f'synthetic {name}.{fn}: model {"reports" if fn in got_fns else "accepts"} it')
+                if not fn.startswith('out_') and fn in dyn and (dyn[fn] is not None) != want_bad:
+                    raise Disagreement(f'synthetic {name}.{fn}: pristine interpreter gives {dyn[fn]}')
+                checked += 1
+            extra = got_fns - {f for f in fns if f.startswith('bad_')}
+            if extra:
+                raise Disagreement(f'synthetic {name}: unexpected reports in {sorted(extra)}')
+        st.pop('cls'), st.pop('data'), st.pop('fails')
+        st['functions_checked_against_pristine_interpreter'] = checked
+        st['dynamic_names_found'] = pkg.dynamic_names
+        return st
+    finally:
+        sys.path.remove(tmp)
+        for k in [k for k in sys.modules if k not in saved and k.split('.')[0] == 'c19synth']:
+            del sys.modules[k]
+        shutil.rmtree(tmp, ignore_errors=True)
+
+
+# --------------------------------------------------------------------------
 # dynamic probe (failing-input search)
 # --------------------------------------------------------------------------
 
@@ -598,7 +1224,8 @@ def reads_global(m, qualname, name):
         todo.extend(k for k in c.co_consts if hasattr(k, 'co_code'))
         q = None if c is top else c.co_qualname
         # lambdas / comprehensions / generator expressions belong to their enclosing def
-        while q and q.rsplit('.', 1)[-1] in ('<lambda>', '<listcomp>', '<setcomp>', '<dictcomp>', '<genexpr>'):
+        while q and (q.rsplit('.', 1)[-1] in ('<lambda>', '<listcomp>', '<setcomp>', '<dictcomp>', '<genexpr>')
+                     or q.rsplit('.', 1)[-1].startswith('<generic parameters of ')):
             q = q.rsplit('.', 1)[0] if '.' in q else None
             if q and q.endswith('.<locals>'):
                 q = q[:-len('.<locals>')]
@@ -640,7 +1267,8 @@ def probe_chain(module, base_modobj_key, path_names):
         ref = base_modobj_key[2]
         lines.append(f'importlib.import_module({ref!r})')
         lines.append(f'o = importlib.import_module({modname!r})')
-        lines += [f'o = getattr(o, {a!r})' for a in path_names[:1]]
+        lines.append(f'for a in {list(path_names)!r}:\n    o = getattr(o, a)\n'
+                     f'    if type(o) is not type(importlib): break')
         env = dict(os.environ, PYTHONPATH=C.REPO)
         r = subprocess.run([sys.executable, '-c', '\n'.join(lines)], capture_output=True, text=True, cwd=C.REPO, env=env)
         if r.returncode != 0 and 'AttributeError' in r.stderr:
@@ -762,6 +1390,7 @@ def main(tier, seed, replay):
         st.pop('cls'), st.pop('data'), st.pop('fails')
         stats.append(st)
         stats.append(corner_check())
+        stats.append(synthetic_check())
         srcs, skipped = stdlib_sources(rng, 25 if tier == 'quick' else None)
         st = validate(srcs, 'stdlib-sample' if tier == 'quick' else 'stdlib-all')
         st.pop('cls'), st.pop('data'), st.pop('fails')
@@ -868,6 +1497,7 @@ def main(tier, seed, replay):
                     'excused_known_findings': [[data['modules'][a]['name'], data['modules'][a]['scopes'][b]['qualname'],
                                                 data['names'][c]] for a, b, c in excused]},
         'translator_validation': stats,
+        'names_bound_dynamically_at_import': getattr(pkg, 'dynamic_names', {}),
         'known_findings_hit': sorted(known_hit),
         'unresolved_fresh': len(fresh), 'confirmed_at_run_time': len(confirmed),
         'breaks': [b[0] for b in breaks], 'infrastructure_problems': infra,
@@ -901,8 +1531,14 @@ ASSUMPTIONS = [
     'names assigned under a `global` declaration in some function count as module globals',
     'attribute chains are checked as far as they stay inside module objects; modules that are not importable in '
     'this environment (optional dependencies) are outside the claim',
-    'names created by exec/setattr/globals()[...] are invisible to the static table (reported as '
-    'no-failing-input-found if a load depends on one)',
+    'names created at import time by exec/setattr/globals()[...] are outside the claim: a statically unbound global '
+    'that a pristine interpreter finds in the imported module counts as bound (listed in the evidence)',
+    'a module-level name whose last top-level statement is `del name`, or only ever bound by `except … as name`, is '
+    'not a module global; reads of it while the module body itself runs are flow-dependent and not checked',
+    'which sub-modules of an installed package are attributes of it is decided in a pristine interpreter (after '
+    'importing the package alone, else after importing the referencing module), not from this process',
+    'aliases of module objects made by assignment (`sig = signal`) and `__all__` entries of modules nobody '
+    'star-imports are not followed',
 ]
 
 
